@@ -701,7 +701,7 @@ def refusal_rule(ctx, fv):
                 if kind is not None and kind == {"Min:window_not_longer_than_m": "window", "Min:m_too_long": "m_too_long"}.get(name):
                     return pol == want_pol
                 return False
-            diags = [x for x in fv.nodes if x.get("k") == "call" and cname(x) in ("std::io::_eprint", "std::io::_print")
+            diags = [x for x in fv.nodes if x.get("k") == "call" and cname(x) in ("std::io::_eprint",)
                      and any(holds(g, pol, True) for g, pol in fv.guards(x))]
             arm_name = name.split(":")[0]
             in_arm = []
@@ -725,8 +725,10 @@ def refusal_rule(ctx, fv):
             continue
         # diagnostic before the return, in the same block
         blk = fv.enclosing(r, ("block",))
-        diag = [x for x in walk(blk) if x.get("k") == "call" and cname(x) in ("std::io::_eprint", "std::io::_print")]
-        ctx.check("C15.Z", name + ":diagnostic", len(diag) >= 1, "prints a diagnostic", "refuses silently", line_of(r))
+        diag = [x for x in walk(blk) if x.get("k") == "call" and cname(x) in ("std::io::_eprint",)]
+        ctx.check("C15.Z", name + ":diagnostic", len(diag) >= 1, "prints a diagnostic on stderr",
+                  "the refusal prints no diagnostic on stderr (stdout carries results when the output is `-`, and scripts "
+                  "read the reason from stderr)", line_of(r))
         # every output-creating call of the arm comes later in block order
         arm_match = None
         for a in fv.ancestors(r):
